@@ -193,6 +193,34 @@ def _check_code(ctx, vtag, ver, where, code_bytes, xins, ref, opc, P, compiled):
         if set(got) != set(xt.values()):
             ctx.violation("%s:%s:vs-own-argval" % (vtag, fname), "labels %s but own jump argvals %s (%s)"
                           % (sorted(got)[:8], sorted(set(xt.values()))[:8], where))
+    # 2b. the sibling reports of the same targets: get_jump_targets and the edges of get_jump_target_maps
+    if compiled and hasattr(opc, "get_jump_targets"):
+        ctx.count("jump_map_routes")
+        try:
+            jt = set(opc.get_jump_targets(code_bytes, opc))
+            if jt != want_labels:
+                ctx.violation("%s:get_jump_targets" % vtag, "get_jump_targets %s, CPython %s (%s)" % (sorted(jt)[:8], sorted(want_labels)[:8], where))
+            jm = opc.get_jump_target_maps(code_bytes, opc)
+            # documented: key = offset, value = offsets of the instructions that can run right before it: the jumps that
+            # go there and the preceding instruction (unless that one never falls through)
+            edges = set((off, tgt) for off, tgt in ref["targets"])
+            for off, tgt in sorted(edges):
+                if off not in jm.get(tgt, []):
+                    ctx.violation("%s:get_jump_target_maps:jump-edge-missing" % vtag, "jump at %d goes to %d, map[%d] = %r (%s)" % (off, tgt, tgt, jm.get(tgt), where))
+                    break
+            starts_sorted = sorted(by_off)
+            prev_of = dict(zip(starts_sorted[1:], starts_sorted))
+            for k, srcs in sorted(jm.items()):
+                for src in srcs:
+                    if (src, k) in edges or prev_of.get(k) == src:
+                        continue
+                    ctx.violation("%s:get_jump_target_maps:edge-not-in-code" % vtag, "map[%d] lists %d, which neither jumps there nor precedes it (%s)" % (k, src, where))
+                    break
+                else:
+                    continue
+                break
+        except Exception as e:
+            ctx.violation("%s:get_jump_target_maps:raises:%s" % (vtag, type(e).__name__), "%r (%s)" % (e, where))
     # 3. is_jump_target
     handlers = set(ref.get("exc") or [])
     if ref.get("flags") is not None:
